@@ -1,6 +1,6 @@
 (* C04: the theorems of Properties/C04.v, assembled from SortLemmas / Acyclic / Settle / Chain / Refute. *)
 From V Require Import Base.PyInt Gen.WireOps Model.SimKernel Model.Sort Spec.C04.
-From V Require Import Proofs.C04.SortLemmas Proofs.C04.Settle Proofs.C04.Refute Proofs.C04.Chain Proofs.C04.Acyclic.
+From V Require Import Proofs.C04.SortLemmas Proofs.C04.Settle Proofs.C04.Refute Proofs.C04.Chain Proofs.C04.Acyclic Proofs.C04.Limit.
 From Coq Require Import Permutation.
 Local Open Scope nat_scope.
 
@@ -165,3 +165,16 @@ Proof.
   exact chain_passes.
 Qed.
 
+Lemma more_passes_never_hurt_thm : forall succ K K' l r,
+  K <= K' -> sort_fuel succ K l = r -> r <> LimitError -> sort_fuel succ K' l = r.
+Proof. exact fuel_monotone. Qed.
+
+Lemma scaled_limit_no_worse_thm : forall succ n l l',
+  sort_fuel succ py4hw_loop_limit l = Sorted l' -> sort_fuel succ (scaled_limit n) l = Sorted l'.
+Proof.
+  intros succ n l l' H. apply (fuel_monotone succ py4hw_loop_limit); auto; [apply scaled_limit_ge|discriminate].
+Qed.
+
+Lemma scaled_limit_accepts_chain_thm : forall n, 1 <= n ->
+  sort_fuel (chain_succ n) (scaled_limit n) (rev_chain n) = Sorted (seq 0 n).
+Proof. exact scaled_limit_chain. Qed.
